@@ -414,6 +414,10 @@ impl RaftStorage<ClientRequest, ClientResponse> for FileStore {
         self.apply_manager
             .send(StateApplyRequest::ApplySnapshot { snapshot })
             .await??;
+        //the snapshot catalogue has to be on disk before any log file is removed
+        self.index_manager
+            .send(RaftIndexRequest::LoadIndexInfo)
+            .await??;
         //清除废弃日志
         let split_off_index = if let Some(v) = delete_through {
             v + 1
